@@ -53,7 +53,7 @@ def run(ctx, spec):
 
     C.translate(ctx)
     proof_ok, model_ok, _ = C.lean_check(ctx, prop)
-    harness_ok = C.cargo_build(ctx, spec.get("bins", ("corr",)))
+    harness_ok = C.cargo_build(ctx, spec.get("bins", ("corr", "e2e")))
 
     bads = []
     if harness_ok and C.model_available():
